@@ -130,7 +130,7 @@ func usage() {
 		names = append(names, k)
 	}
 	sort.Strings(names)
-	fmt.Fprintf(os.Stderr, "usage: h2v dump-tables <dir> | h2v gen <suite> <seed> <n> <tier> <prefix> | h2v replay <suite> <case line>\nsuites: %s\n", strings.Join(names, " "))
+	fmt.Fprintf(os.Stderr, "usage: h2v dump-tables <dir> | h2v fingerprints <repo dir> | h2v gen <suite> <seed> <n> <tier> <prefix> | h2v replay <suite> <case line>\nsuites: %s\n", strings.Join(names, " "))
 	os.Exit(2)
 }
 
@@ -139,6 +139,11 @@ func main() {
 		usage()
 	}
 	switch os.Args[1] {
+	case "fingerprints":
+		if len(os.Args) != 3 {
+			usage()
+		}
+		fingerprints(os.Args[2])
 	case "dump-tables":
 		if len(os.Args) != 3 {
 			usage()
